@@ -226,6 +226,92 @@ def d_dquant(ck, F):
             ck.ok('D', 'in_force_quantizer := clamp(in_force_quantizer + dquant.unwrap_or(0), 1, 31)', where_of(b, d[1], d[3]['span']))
     if not found:
         ck.violation('D', 'D : closure : quantizer update', where_of(b), 'no update of the form clamp(q + dquant, 1, 31) found for in_force_quantizer')
+    quant_update_table(ck, F)
+
+
+INT_TYPES = {'i8': (8, True), 'i16': (16, True), 'i32': (32, True), 'i64': (64, True), 'isize': (64, True), 'u8': (8, False), 'u16': (16, False), 'u32': (32, False), 'u64': (64, False), 'usize': (64, False)}
+
+
+class Overflow(Exception):
+    pass
+
+
+def _wrap(v, ty):
+    bits, signed = INT_TYPES[ty]
+    v &= (1 << bits) - 1
+    if signed and v >= 1 << (bits - 1): v -= 1 << bits
+    return v
+
+
+def eval_int(e, env, ty=None):
+    """value of a def-use expression on concrete integers with Rust integer semantics: `as` casts wrap to the target type, arithmetic that leaves the
+    operand type raises Overflow.  Returns (value, type).  (A finite table of a closed form; nothing of /repo is executed.)"""
+    k = e[0]
+    if k == 'c': return e[1], ty
+    if e in env: return env[e]
+    if k == 'cast':
+        v, t0 = eval_int(e[2], env)
+        if e[1] not in INT_TYPES: raise Unanalysable('cast to %s' % e[1])
+        return _wrap(v, e[1]), e[1]
+    if k == 'op' and e[1] in ('Add', 'Sub', 'AddWithOverflow', 'SubWithOverflow'):
+        a, ta = eval_int(e[2], env); b, tb = eval_int(e[3], env, ta)
+        t = ta or tb
+        v = a + b if e[1].startswith('Add') else a - b
+        if t is not None and _wrap(v, t) != v: raise Overflow('%s overflows %s' % (e[1], t))
+        return v, t
+    if k == 'call' and e[1].endswith('::clamp') and len(e) == 5:
+        v, t = eval_int(e[2], env); lo, _ = eval_int(e[3], env, t); hi, _ = eval_int(e[4], env, t)
+        return max(lo, min(hi, v)), t
+    if k == 'call' and (e[1].endswith('::min') or e[1].endswith('::max')) and len(e) == 4:
+        a, t = eval_int(e[2], env); b, _ = eval_int(e[3], env, t)
+        return (min(a, b) if e[1].endswith('::min') else max(a, b)), t
+    raise Unanalysable('cannot tabulate %s' % (e[:2],))
+
+
+def quant_update_table(ck, F):
+    """the quantizer update as a function: tabulated over every quantizer 0..31 and every DQUANT value, with the casts as written"""
+    ck.rule('DQ', 'the update of in_force_quantizer, evaluated with Rust cast / overflow semantics for every q in 0..=31 and dquant in {-2,-1,0,+1,+2}, equals clamp(q + dquant, 1, 31)')
+    b = F.body('h263_rs::decoder::state::H263State::decode_next_picture::{closure#0}'); g = cfg_of(b); D = defs_of(b)
+    names = {v: int(k) for k, v in b.get('debug', {}).items()}
+    q = names.get('in_force_quantizer')
+    loops = g.loops()
+    cands = []
+    for d in D.defs.get(q, []):
+        if d[0] != 'assign': continue
+        e = _expr_rv(F, b, d[3]['rv'], 0, {})
+        uses_q = ('multi', q) in _subterms(e)
+        if uses_q: cands.append((d, e))
+    if len(cands) != 1:
+        ck.violation('DQ', 'DQ : closure : update site', where_of(b), 'expected one update of in_force_quantizer from its own value, found %d' % len(cands)); return
+    d, e = cands[0]
+    dqs = [x for x in _subterms(e) if x[0] == 'call' and x[1].endswith('::unwrap_or')]
+    dq = dqs[0] if dqs else None
+    bad = []
+    for qv in range(0, 32):
+        for dv in (-2, -1, 0, 1, 2):
+            env = {('multi', q): (qv, 'u8')}
+            if dq is not None: env[dq] = (dv, 'i8')
+            try:
+                v, t = eval_int(e, env)
+            except Overflow as ex:
+                bad.append('q=%d dquant=%d: %s' % (qv, dv, ex)); continue
+            except Unanalysable as ex:
+                ck.violation('DQ', 'DQ : closure : update form', where_of(b, d[1]), 'cannot tabulate the quantizer update: %s' % ex); return
+            want = max(1, min(31, qv + dv))
+            if v != want: bad.append('q=%d dquant=%d -> %d, expected %d' % (qv, dv, v, want))
+    if bad or dq is None:
+        ck.violation('DQ', 'DQ : closure : quantizer update values', where_of(b, d[1], d[3]['span']), 'the quantizer update differs from clamp(q + dquant, 1, 31): %s' % ('; '.join(bad[:5]) or 'no dquant operand'))
+    else:
+        ck.ok('DQ', 'in_force_quantizer update == clamp(q + dquant, 1, 31) on all 160 (q, dquant) pairs, casts as written', where_of(b, d[1], d[3]['span']))
+
+
+def _subterms(e, acc=None):
+    if acc is None: acc = []
+    if isinstance(e, tuple) and e and isinstance(e[0], str):
+        acc.append(e)
+        for x in e[1:]:
+            if isinstance(x, tuple): _subterms(x, acc)
+    return acc
 
 
 def run(ck, F, tier):
